@@ -1,4 +1,5 @@
 import ServlinVerif.Props.C03
+import ServlinVerif.Props.C04Pipeline
 open Servlin.C03
 #print axioms ops_eq
 #print axioms C03_classify_closed_form
@@ -10,3 +11,7 @@ open Servlin.C03
 #print axioms C03_body_table
 #print axioms C03_codings
 #print axioms C03_legacy_violates
+open Servlin.C04P
+#print axioms C03_boundary
+#print axioms classify_plain
+#print axioms classify_plain_length
